@@ -1,5 +1,6 @@
 """C07 - escaped values decode back to the exact original text (DESIGN section 7 C07)."""
 import json
+import shutil
 import time
 from concurrent.futures import ThreadPoolExecutor
 import rig
@@ -34,6 +35,22 @@ RULE = ("per target language, every string of <= GenLen tokens over its 18-token
         "x 13 contexts; non-trivial = the rendered slice differs from the input")
 
 
+def trace_judge(ctx, step, obs_path):
+    """rig.trace_judge with a 2 GB heap (several of these JVMs run at the same time)."""
+    wd = ctx.stage(step, FAMS)
+    shutil.copy(obs_path, wd / "obs.ndjson")
+    for f in ("bad.ndjson", "diag.ndjson"):
+        if (wd / f).exists():
+            (wd / f).unlink()
+    rig.write_cfg(wd / "Trace_Escapers.cfg", invariants=["Done"], postcondition="Consumed")
+    r = ctx.tlc(wd, "Trace_Escapers", workers=1, timeout=840, heap="2g")
+    if not r.ok:
+        raise Infra(f"Trace spec Trace_Escapers did not complete cleanly (rc={r.rc}): {wd}/Trace_Escapers.out\n" + rig.tail(r.out, 30))
+    if not (wd / "bad.ndjson").exists() or not (wd / "diag.ndjson").exists():
+        raise Infra(f"Trace spec Trace_Escapers wrote no bad.ndjson/diag.ndjson ({wd})")
+    return rig.read_ndjson(wd / "bad.ndjson")
+
+
 def judge(ctx, step, recs):
     """Judge observation records with Trace_Escapers in up to PAR concurrent TLC processes.
     Returns (bad records with 'obs' attached, summed diagnostics)."""
@@ -44,7 +61,7 @@ def judge(ctx, step, recs):
     def one(i):
         p = ctx.work / f"{step}_{i}.ndjson"
         rig.write_ndjson(p, parts[i])
-        b, _ = rig.trace_judge(ctx, f"{step}_{i}", FAMS, "Trace_Escapers", p, timeout=840)
+        b = trace_judge(ctx, f"{step}_{i}", p)
         for x in b:
             x["obs"] = parts[i][x["k"] - 1]
         return b, rig.read_ndjson(ctx.work / f"{step}_{i}" / "diag.ndjson")[0]
